@@ -541,6 +541,10 @@ pub fn run(ctx: &Ctx) -> CheckResult {
     for item in scen::source_items(&ctx.corpus) {
         let mut c = scen::compile_case(item, false);
         c.steps[0].argv.extend([s("--output-debug-info"), s(scen::DBG)]);
+        if item.cmd == "truanm" {
+            // (with the other auxiliary output requested too)
+            c.steps[0].argv.extend([s("--output-thecl-defs"), s("defs.h")]);
+        }
         // the independent reader
         let mut argv = vec![item.cmd.clone(), s("decompile"), s("-g"), item.game.clone(), s(scen::OUT), s("-o"), s(scen::DEC)];
         for i in 0..(item.mapfiles.len() + item.compile_mapfiles.len()) {
